@@ -372,7 +372,6 @@ type run struct {
 	sum       big.Int
 	allIn     bool // every add / latest time so far is inside the int64-nanosecond range
 	chain     bool // each resolution divides the next
-	misplaced bool // an add took the "new pending bucket" path behind an already advanced level 0
 	h         [2]*trace.VerifHist
 	hcount    [2]int64
 }
@@ -423,7 +422,6 @@ func (r *run) clearRef() {
 	r.hist = nil
 	r.sum.SetInt64(0)
 	r.allIn = true
-	r.misplaced = false
 }
 
 func showList(xs []timeseries.Observable) string {
@@ -523,9 +521,6 @@ func (r *run) rangeOracle(o *vu.Out, op string, start, finish *big.Int, num int,
 		got := res[k].(*iobs)
 		if got.approx || got.v.Cmp(want) != 0 {
 			sig := ""
-			if r.misplaced {
-				sig = "add-behind-advanced-level"
-			}
 			if want.Sign() != 0 || got.v.Sign() != 0 {
 				o.Stat("range:nonzero-checked")
 			}
@@ -587,8 +582,7 @@ func exec(ops []string, o *vu.Out) {
 			st := r.ts.State()
 			pt, e0 := fromTime(st.PendingTime), fromTime(st.Levels[0].End)
 			if T.Cmp(pt) > 0 && T.Cmp(new(big.Int).Sub(e0, big.NewInt(int64(st.Levels[0].Size)))) <= 0 {
-				r.misplaced = true
-				o.Stat("add:behind-advanced-level")
+				o.Stat("add:behind-advanced-level") // was mis-filed before the repair of Latest/LatestBuckets
 			}
 			ob := new(iobs)
 			ob.v.SetInt64(v)
